@@ -364,6 +364,8 @@ func runC13(c *Ctx) {
 	runFlagTyping(c, "C13-R4")
 	checkFlagBytesReadThroughMasks(c, "C13-R4")
 	checkSummaryInputIndexIsTheDebits(c, "C13-R1")
+	checkMissingLabelIsNotAnError(c, "C13-R3")
+	runLoopCompletenessN(c, "C13-R1", []string{"PreviousPkScripts"}, 1)
 	checkCreditRewriteFlags(c, "C13-R4")
 	checkExistsThenPut(c, "C13-R4")
 	checkConflictRemoval(c, "C13-R5")
@@ -984,4 +986,51 @@ func checkSummaryInputIndexIsTheDebits(c *Ctx, rule string) {
 		}
 	}
 	c.Floor(rule, "wallet input entries of transaction summaries", n, 1)
+}
+
+// checkMissingLabelIsNotAnError: the detail builders end with the transaction's label; most transactions have none. The
+// label lookup therefore maps BOTH "no label bucket yet" and "no label for this transaction" to the empty label: each of
+// the two sentinels is tested in TxLabel and its matching edge leads to a return without error. With one arm missing,
+// every unlabelled transaction stops being reported the moment the first label is written.
+func checkMissingLabelIsNotAnError(c *Ctx, rule string) {
+	p := c.P
+	fn := wtxFn(c, rule, "TxLabel")
+	if fn == nil {
+		return
+	}
+	for _, sentinel := range []string{"ErrNoLabelBucket", "ErrTxLabelNotFound"} {
+		ok := false
+		for _, f := range p.regionOf(fn) {
+			for _, b := range f.Blocks {
+				for si := range b.Succs {
+					s, isTrue, okS := errIsSentinel(b, si)
+					if !okS {
+						// `switch err { case ErrX:` / `err == ErrX`
+						if iff, isIf := b.Instrs[len(b.Instrs)-1].(*ssa.If); isIf {
+							inner, neg := unwrapNot(iff.Cond)
+							if bo, isBo := inner.(*ssa.BinOp); isBo && (bo.Op == token.EQL || bo.Op == token.NEQ) {
+								for _, side := range []ssa.Value{bo.X, bo.Y} {
+									if u, isU := stripConv(side).(*ssa.UnOp); isU {
+										if g, isG := u.X.(*ssa.Global); isG {
+											s, okS = g.Name(), true
+											isTrue = ((bo.Op == token.EQL) != neg) == (si == 0)
+										}
+									}
+								}
+							}
+						}
+					}
+					if !okS || !isTrue || !strings.HasSuffix(s, sentinel) {
+						continue
+					}
+					q := &PathQuery{Fn: f, Target: p.nonErrorReturn()}
+					if len(exploreFromBlock(q, b.Succs[si], b)) > 0 {
+						ok = true
+					}
+				}
+			}
+		}
+		c.Check(rule, "missing-label-is-not-an-error:"+sentinel, fn.Pos(), ok,
+			"TxLabel does not turn "+sentinel+" into the empty label: TxDetails / RangeTransactions fail with it for every transaction that has no label, so known transactions are no longer reported")
+	}
 }
